@@ -54,3 +54,39 @@ Theorem C04_eager_ok_writes_all : forall fs items es,
   rewrite_files_eager fs items = (FilesOk, es) -> map fst (writes es) = map fst items.
 Proof. exact eager_ok_writes_all. Qed.
 Print Assumptions C04_eager_ok_writes_all.
+
+(* ---- Proofs.RewriteOccFacts ---- *)
+From Coq Require Import List Bool NArith ZArith Arith.
+From BV Require Import Lib.PyStr Model.Rewrite Proofs.RewriteFacts Proofs.RewriteOccFacts.
+Import ListNotations.
+Theorem C04_replace_spans_length : forall (spans : list span) (line : list N) (off : nat), spans_wf off (length line) spans -> length (replace_spans line off spans) + sum_cut spans = length line + sum_repl spans.
+Proof. exact replace_spans_length. Qed.
+Print Assumptions C04_replace_spans_length.
+
+Theorem C04_replace_spans_same_pointwise : forall (spans : list span) (line : list N) (off : nat), spans_wf off (length line) spans -> (forall (a b : nat) (r : list N), In (a, b, r) spans -> r = firstn (b - a) (skipn (a - off) line)) -> replace_spans line off spans = line.
+Proof. exact replace_spans_same_pointwise. Qed.
+Print Assumptions C04_replace_spans_same_pointwise.
+
+Theorem C04_replace_spans_decompose : forall (s1 : list (nat * nat * list N)) (line : list N) (off a b : nat) (r : list N) (s2 : list (nat * nat * list N)), spans_wf off (length line) (s1 ++ (a, b, r) :: s2) -> replace_spans line off (s1 ++ (a, b, r) :: s2) = replace_spans (firstn (a - off) line) off s1 ++ r ++ replace_spans (skipn (b - off) line) b s2.
+Proof. exact replace_spans_decompose. Qed.
+Print Assumptions C04_replace_spans_decompose.
+
+Theorem C04_rewrite_lines_prefix_kept : forall (pats : list cpat) (lines nl : list (list N)), (forall p : cpat, In p pats -> span_ok p) -> rewrite_lines pats lines = RwOk nl -> forall i : nat, i < length lines -> forall (a b : nat) (r : list N) (t : list (nat * nat * list N)), spans_on (iter_matches lines pats) i = (a, b, r) :: t -> firstn a (nth i nl []) = firstn a (nth i lines []).
+Proof. exact rewrite_lines_prefix_kept. Qed.
+Print Assumptions C04_rewrite_lines_prefix_kept.
+
+Theorem C04_rewrite_lines_suffix_kept : forall (pats : list cpat) (lines nl : list (list N)), (forall p : cpat, In p pats -> span_ok p) -> rewrite_lines pats lines = RwOk nl -> forall i : nat, i < length lines -> forall (s1 : list (nat * nat * list N)) (a b : nat) (r : list N), spans_on (iter_matches lines pats) i = s1 ++ [(a, b, r)] -> skipn (length (nth i nl []) - (length (nth i lines []) - b)) (nth i nl []) = skipn b (nth i lines []).
+Proof. exact rewrite_lines_suffix_kept. Qed.
+Print Assumptions C04_rewrite_lines_suffix_kept.
+
+Theorem C04_rewrite_lines_line_length : forall (pats : list cpat) (lines nl : list (list N)), (forall p : cpat, In p pats -> span_ok p) -> rewrite_lines pats lines = RwOk nl -> forall i : nat, i < length lines -> let sp := spans_on (iter_matches lines pats) i in length (nth i nl []) + sum_cut sp = length (nth i lines []) + sum_repl sp.
+Proof. exact rewrite_lines_line_length. Qed.
+Print Assumptions C04_rewrite_lines_line_length.
+
+Theorem C04_rewrite_lines_same_text_identity : forall (pats : list cpat) (lines nl : list (list N)), (forall p : cpat, In p pats -> span_ok p) -> rewrite_lines pats lines = RwOk nl -> (forall m : pmatch, In m (iter_matches lines pats) -> cp_repl (pm_pat m) = firstn (pm_end m - pm_start m) (skipn (pm_start m) (nth (pm_line m) lines []))) -> nl = lines.
+Proof. exact rewrite_lines_same_text_identity. Qed.
+Print Assumptions C04_rewrite_lines_same_text_identity.
+
+Theorem C04_ex_identity : let ms := iter_matches [ex_line] [ex_same] in ms <> [] /\ forallb (fun m : pmatch => eqb_str (cp_repl (pm_pat m)) (firstn (pm_end m - pm_start m) (skipn (pm_start m) (nth (pm_line m) [ex_line] [])))) ms = true /\ rewrite_lines [ex_same] [ex_line] = RwOk [ex_line].
+Proof. exact ex_identity. Qed.
+Print Assumptions C04_ex_identity.
